@@ -16,6 +16,7 @@ type SpecEnv struct {
 	f       *Frame           // frame whose variables are visible (may be nil for lemmas)
 	st      *State           // current state
 	old     *State           // entry state for old(); nil => old() not allowed
+	pre     *State           // loop-head state of the current iteration for pre()
 	vars    map[string]Val   // params (entry values), results, bound vars, lets
 	pos     token.Pos        // scope position for variable lookup in f
 	pkgPath string           // package for name resolution
@@ -582,6 +583,12 @@ func (env *SpecEnv) evalCall(x *SCall) Val {
 			env.fail("old() not available here")
 		}
 		return env.withState(env.old).eval(x.Args[0])
+	case "pre":
+		argn(1)
+		if env.pre == nil {
+			env.fail("pre() is only available in loop asserts")
+		}
+		return env.withState(env.pre).eval(x.Args[0])
 	case "len":
 		argn(1)
 		v := env.eval(x.Args[0])
@@ -632,6 +639,14 @@ func (env *SpecEnv) evalCall(x *SCall) Val {
 			return Sc{Select(mm.T, env.eval(x.Args[1]).(Sc).T)}
 		}
 		env.fail("has() on %T", m)
+	case "window.Window", "arrayview":
+		// conversion of a byte-slice view to an array value: the content shifted to index 0
+		argn(1)
+		arr, off, _ := env.bytesView(env.eval(x.Args[0]))
+		if off.IsLit() && off.lit.Sign() == 0 {
+			return ArrV{T: arr}
+		}
+		return ArrV{T: App("ashift", ArrSort(SInt), arr, off)}
 	case "hasprefix":
 		argn(2)
 		return Sc{in.hasPrefixUF(env.asStr(env.eval(x.Args[0])), env.asStr(env.eval(x.Args[1])))}
@@ -869,7 +884,23 @@ func (env *SpecEnv) callOpaqueSpecFunc(sf *SpecFunc, args []Val) Val {
 			env.fail("opaque spec function %s: body is %T", sf.Name, body)
 		}
 		app := App(fn, rs, vars...)
-		in.D.lines = append(in.D.lines, fmt.Sprintf("(assert %s)", Forall(vars, Eq(app, bt), []Term{app}).S))
+		axiom := fmt.Sprintf("(assert %s)", Forall(vars, Eq(app, bt), []Term{app}).S)
+		in.D.lines = append(in.D.lines, axiom)
+		// quantifier-free rendering for counterexample search: a macro at the axiom's position
+		var ps []string
+		for _, v := range vars {
+			ps = append(ps, fmt.Sprintf("(%s %s)", v.S, v.Sort))
+		}
+		if in.D.defines == nil {
+			in.D.defines = map[string]string{}
+			in.D.declSkip = map[string]bool{}
+		}
+		if in.D.opaqueAxiom == nil {
+			in.D.opaqueAxiom = map[string]string{}
+		}
+		in.D.opaqueAxiom[axiom] = sf.Name
+		in.D.defines[axiom] = fmt.Sprintf("(define-fun %s (%s) %s %s)", fn, strings.Join(ps, " "), rs, bt.S)
+		in.D.declSkip[fmt.Sprintf("(declare-fun %s (%s) %s)", fn, strings.Join(sorts, " "), rs)] = true
 	}
 	return env.thawSort(App(fn, rs, ts...))
 }
